@@ -21,8 +21,14 @@ RULE = ("one run = one seeded wallet history: 1..2 HD (or single-key) accounts, 
         "payments, claims, supports, purchases, script payments; amounts absolute or steered so that the deficit "
         "equals the effective sum of all / a subset / one available output plus a small delta; optional "
         "pre-chosen inputs; input-only builds), then release / broadcast (recorded as sync would) / hold; later "
-        "release/broadcast of held builds; more funding. Non-trivial = at least two builds of which one succeeded "
-        "after a coin selection; distinct = distinct event-trace digest.")
+        "release/broadcast of held builds; more funding. Layered on that base history by independent PRNG "
+        "streams: (dust, 20 % of runs) 3..100 outputs worth less than the fee to spend them next to ordinary ones, "
+        "then payments the ordinary ones cover; (prechosen, 20 %) builds whose pre-chosen inputs are plain UNRESERVED "
+        "outputs of the funding account (the txo_spend pattern): sweeps and payments the pre-chosen input does not "
+        "cover; and 10 % of the runs are boundary histories for the sqlite chooser (funding gaps of 1..11 dewies, "
+        "outputs of 10**14-1..10**17 dewies, costs covered exactly or with less than one change-output fee to "
+        "spare). Non-trivial = at least two builds of which one succeeded after a coin selection; distinct = "
+        "distinct event-trace digest.")
 COMPONENTS = {
     'real': ['lbry.wallet.transaction.Transaction.create/pay/claim_create/support/purchase/sign',
              'lbry.wallet.transaction.Input/Output', 'lbry.wallet.coinselection.CoinSelector',
@@ -37,9 +43,13 @@ COMPONENTS = {
 }
 ASSUMPTIONS = [
     'sqlite commits are atomic; every executor job runs inline at a scheduler-drawn virtual instant',
-    'pre-chosen inputs are reserved by the caller before Transaction.create, as Account.fund(everything) does',
-    'domain: <= 250 inputs/outputs per transaction; refusal exactness (O7) only when every available output is '
-    'worth more than the fee to spend it, and not asserted for branch_and_bound used alone',
+    'pre-chosen inputs are reserved by the caller before Transaction.create, as Account.fund(everything) does, '
+    'except in `pre_unreserved` builds, which hand in plain unreserved outputs as daemon.jsonrpc_txo_spend does and '
+    'are released or broadcast right after the build (never held)',
+    'domain: <= 250 inputs/outputs per transaction; refusal exactness (O7) is judged on the available outputs worth '
+    'more than the fee to spend them (outputs below it neither help nor hurt); closest_match / random_draw used '
+    'alone need one output / the total to reach the deficit plus one change-output fee; not asserted for '
+    'branch_and_bound used alone',
     'ECDSA signatures are low-S DER (coincurve), hence never longer than the 72-byte placeholder',
 ]
 EXPECTED_PROBES = ['build_ok', 'build_refused', 'change_output_present', 'no_change_surplus', 'exact_no_change',
@@ -47,7 +57,8 @@ EXPECTED_PROBES = ['build_ok', 'build_refused', 'change_output_present', 'no_cha
                    'preselected_inputs', 'input_only_build', 'out_claim', 'out_support', 'out_purchase',
                    'name_fee_dominates', 'released', 'broadcast', 'later_release_or_broadcast',
                    'two_account_funding', 'change_on_new_address', 'unconfirmed_input_used', 'api_call',
-                   'inputs_ge_5', 'spent_change_of_earlier_build', 'o7_skipped_dust', 'sqlite_margin_refusal']
+                   'inputs_ge_5', 'spent_change_of_earlier_build', 'o7_with_dust_present', 'sqlite_margin_refusal',
+                   'sqlite_tiny_deficit', 'sqlite_huge_output_available', 'prechosen_unreserved_build']
 
 DUST = W.DUST
 
@@ -128,11 +139,134 @@ def gen(run_seed, tier):
             ops.append(_gen_fund(r, rate, regime, n_accounts, False))
         else:
             ops.append({'op': k, 'pick': round(r.random(), 3), 'bheight': r.choice([0, -1, 60]), 'gap': r.random() < 0.6})
-    return {'family': 'seq', 'fee_per_byte': rate, 'fee_per_name_char': r.choice([0, 0, 1000, 200000, 10 ** 6]),
-            'strategy': r.choice(W.STRATEGIES), 'n_accounts': n_accounts, 'regime': regime,
-            'gaps': r.choice([[20, 6, 1], [20, 6, 1], [5, 2, 1], [3, 1, 1], [4, 2, 2]]),
-            'single_key': r.random() < 0.08, 'exec_delay': r.choice([[0.0, 0.0], [0.0, 0.002], [0.001, 0.02]]),
-            'ops': ops}
+    sc = {'family': 'seq', 'fee_per_byte': rate, 'fee_per_name_char': r.choice([0, 0, 1000, 200000, 10 ** 6]),
+          'strategy': r.choice(W.STRATEGIES), 'n_accounts': n_accounts, 'regime': regime,
+          'gaps': r.choice([[20, 6, 1], [20, 6, 1], [5, 2, 1], [3, 1, 1], [4, 2, 2]]),
+          'single_key': r.random() < 0.08, 'exec_delay': r.choice([[0.0, 0.0], [0.0, 0.002], [0.001, 0.02]]),
+          'ops': ops}
+    # ---- a tenth of the runs is a boundary history for the sqlite chooser, drawn from its own stream ----------
+    rs = stream('C03.gen.sqlite_bounds', run_seed)
+    if rs.random() < 0.10 and not heavy:
+        return _gen_sqlite_bounds(rs, sc)
+    # ---- features appended to the base history; each owns its PRNG stream, the base prefix stays what it was ----
+    features = []
+    rd = stream('C03.gen.dust', run_seed)
+    if rd.random() < 0.20 and not heavy:
+        features.append('dust')
+        _append_dust(rd, sc, rate, n_accounts)
+    rp = stream('C03.gen.prechosen', run_seed)
+    if rp.random() < 0.20 and not heavy:
+        features.append('prechosen')
+        _append_prechosen(rp, sc, rate, n_accounts)
+    if features:
+        sc['family'] = 'seq+' + '+'.join(features)
+    return sc
+
+
+def _append_dust(r, sc, rate, n_accounts):
+    """Outputs worth less than the fee to spend them (dust attack / tiny tips) next to ordinary ones, then
+    payments the ordinary outputs cover."""
+    sf = W.spend_fee(rate)
+    acct = r.randrange(n_accounts)
+    n = r.choice([3, 10, 30, 100])
+    tiny = [r.choice([1, 1, 2, DUST, max(1, sf // 2), max(1, sf - 1), max(1, sf)]) for _ in range(n)]
+    sc['ops'].append({'op': 'fund', 'acct': acct, 'outs': [[0, r.randrange(12), a] for a in tiny],
+                      'height': r.choice([40, 40, 0]), 'gap': True})
+    if r.random() < 0.7:        # make sure something ordinary is there too
+        sc['ops'].append({'op': 'fund', 'acct': acct, 'height': 40, 'gap': True,
+                          'outs': [[0, r.randrange(12), r.choice([10 ** 6, 10 ** 7, 10 ** 8]) + sf]
+                                   for _ in range(r.choice([1, 1, 3]))]})
+    for _ in range(r.choice([1, 2, 3])):
+        amount = r.choice([['frac', r.choice([0.1, 0.5, 0.9])], ['total', -r.randrange(0, 4 * W.cost_of_change(rate) + 2)],
+                           ['single', round(r.random(), 3), -r.randrange(0, 2 * W.cost_of_change(rate) + 2)]])
+        sc['ops'].append({'op': 'create', 'funding': [acct], 'change': acct, 'sign': r.random() < 0.5, 'api': False,
+                          'then': r.choice(['release', 'release', 'broadcast']), 'bheight': 0, 'gap': True,
+                          'outputs': [{'k': 'pay', 'ext': r.randrange(1000), 'amount': amount}]})
+
+
+def _append_prechosen(r, sc, rate, n_accounts):
+    """Pre-chosen inputs that are plain, unreserved outputs of the funding account (the txo_spend pattern):
+    sweeps of small outputs and payments the pre-chosen input does not cover."""
+    sf, coc = W.spend_fee(rate), W.cost_of_change(rate)
+    acct = r.randrange(n_accounts)
+    if r.random() < 0.6:
+        sc['ops'].append({'op': 'fund', 'acct': acct, 'height': r.choice([40, 40, 0]), 'gap': True,
+                          'outs': [[0, r.randrange(12), a] for a in
+                                   [sf + W.BASE_SIZE * rate + 1 + r.randrange(0, coc + DUST), r.choice([10 ** 7, 10 ** 8]),
+                                    r.choice([5 * 10 ** 7, 5 * 10 ** 8])][:r.choice([2, 3])]]})
+    for _ in range(r.choice([1, 2, 3])):
+        op = {'op': 'create', 'funding': [acct], 'change': acct, 'sign': r.random() < 0.5, 'api': False,
+              'then': r.choice(['release', 'release', 'broadcast']), 'bheight': 0, 'gap': True, 'pre_unreserved': True,
+              'pre': r.choice([['smallest', 1], ['smallest', 1], [round(r.random(), 3)],
+                               [round(r.random(), 3), round(r.random(), 3)]])}
+        if r.random() < 0.4:
+            op['outputs'] = []                  # sweep
+        else:
+            # the pre-chosen input falls short by about what it is worth itself (or by some other amount)
+            amount = r.choice([['pre', -r.randrange(0, W.chooser_margin(rate) + 1)], ['pre', -r.randrange(0, coc + DUST)],
+                               ['pre', r.choice([1, coc, 10 ** 5])], ['frac', r.choice([0.3, 0.7])]])
+            op['outputs'] = [{'k': r.choice(['pay', 'pay', 'claim']), 'name': 'abc', 'ext': r.randrange(1000),
+                              'amount': amount}]
+        sc['ops'].append(op)
+
+
+def _gen_sqlite_bounds(r, base):
+    """Boundary histories for the sqlite strategy: funding gaps of a few dewies, outputs of 10**14 dewies and
+    more, costs covered exactly or with less than one change-output fee to spare."""
+    rate = r.choice([50, 50, 50, 1, 100])
+    sf, coc, m = W.spend_fee(rate), W.cost_of_change(rate), W.chooser_margin(rate)
+    sub = r.choice(['tiny_deficit', 'huge', 'huge', 'exact', 'mixed'])
+    ops = []
+
+    def fund(amounts, height=40):
+        ops.append({'op': 'fund', 'acct': 0, 'height': height, 'gap': True,
+                    'outs': [[0, r.randrange(12), a] for a in amounts]})
+
+    def create(amount, pre=None, then=None, k='pay'):
+        op = {'op': 'create', 'funding': [0], 'change': 0, 'sign': r.random() < 0.4, 'api': False,
+              'then': then or r.choice(['release', 'release', 'release', 'broadcast']), 'bheight': r.choice([0, 50]),
+              'gap': True, 'outputs': [{'k': k, 'name': 'abc', 'ext': r.randrange(1000), 'amount': amount}]}
+        if pre:
+            op['pre'] = pre
+        ops.append(op)
+
+    huge = [10 ** 14 - 1, 10 ** 14, 10 ** 14 + 1, 3 * 10 ** 14, 10 ** 15, 10 ** 16, 5 * 10 ** 16, 10 ** 17]
+    plain = lambda: W.gen_amount(r, rate, 'plain')      # noqa: E731
+    if sub in ('tiny_deficit', 'mixed'):
+        fund([plain() for _ in range(r.choice([3, 4, 6]))], r.choice([40, 40, 0]))
+        for _ in range(r.choice([2, 3])):
+            create(['deficit', r.choice([1, 2, 5, 9, 9, 10, 11])], pre=[round(r.random(), 3)],
+                   k=r.choice(['pay', 'claim']))
+    if sub in ('huge', 'mixed'):
+        if sub == 'huge' and r.random() < 0.3:
+            fund([plain() for _ in range(r.choice([1, 2]))])
+        fund([r.choice(huge) for _ in range(r.choice([1, 1, 2, 3]))], r.choice([40, 40, 0]))
+        for _ in range(r.choice([2, 3])):
+            create(r.choice([['abs', 10 ** 8], ['abs', 10 ** 8], ['frac', 0.5], ['frac', 0.9],
+                             ['total', -r.randrange(0, 3 * coc + DUST)], ['abs', 10 ** 13]]))
+    if sub in ('exact', 'mixed'):
+        fund([plain() for _ in range(r.choice([2, 3, 5]))], r.choice([40, 40, 0]))
+        for _ in range(r.choice([2, 3, 4])):
+            d = r.choice([0, 0, -1, -m + 1, -m, -m - 1, -r.randrange(0, m + 1), -r.randrange(0, coc + DUST + 2)])
+            create(r.choice([['total', d], ['total', d], ['subset', [round(r.random(), 3), round(r.random(), 3)], d]]))
+    return dict(base, family='seq+sqlite_bounds', strategy='sqlite', fee_per_byte=rate, n_accounts=1,
+                single_key=False, regime='sqlite_bounds', ops=ops)
+
+
+def _sqlite_range_schedule(items, target):
+    """What the sqlite chooser can accumulate from (amount, effective amount) pairs with its range schedule
+    [floor, floor*multiplier): used only to name the reason of a refusal in the violation's site."""
+    floor, mult, gap, got = 1, 100, 0, 0
+    while got < target and gap < 5 and floor * mult < 9223372036854775807:
+        before = got
+        got += sum(e for a, e in items if floor <= a < floor * mult)
+        floor *= mult
+        if got == before:
+            gap += 1
+            mult **= 2
+        else:
+            gap, mult = 0, 100
+    return got
 
 
 def shrink(sc):
@@ -157,6 +291,8 @@ def shrink(sc):
         if op.get('op') == 'create':
             if op.get('pre'):
                 yield rep(dict(op, pre=None))
+            if op.get('pre_unreserved'):
+                yield rep({k: v for k, v in op.items() if k != 'pre_unreserved'})
             if op.get('api'):
                 yield rep(dict(op, api=False))
             if op.get('then') != 'hold':
@@ -208,8 +344,15 @@ def execute(scenario, keep_trace=False):
         # O2 inputs
         in_ops = [i['op'] for i in ins]
         if len(set(in_ops)) != len(in_ops):
-            return run.violation('C03.input_duplicate', f'an outpoint is spent twice in one transaction: {in_ops}',
-                                 clause='O2')
+            twice = sorted({op for op in in_ops if in_ops.count(op) > 1})
+            pre_set = {u.op for u in b.pre}
+            real_in = sum(sim.utxos[op].amount for op in set(in_ops) if op in sim.utxos)
+            return run.violation('C03.input_duplicate', f'an outpoint is spent twice in one transaction: {twice[:3]} '
+                                 f'(pre-chosen: {[op in pre_set for op in twice][:3]}); distinct inputs are worth '
+                                 f'{real_in}, outputs {sum(o["amount"] for o in outs)}, real fee '
+                                 f'{real_in - sum(o["amount"] for o in outs)}', clause='O2',
+                                 prechosen=any(op in pre_set for op in twice),
+                                 pre_reserved=not b.spec.get('pre_unreserved', False))
         pre_ops = [u.op for u in b.pre]
         missing = [op for op in pre_ops if op not in in_ops]
         if missing:
@@ -325,43 +468,59 @@ def execute(scenario, keep_trace=False):
         earlier = set()
         for c in b.calls[:-1]:
             earlier.update(c['returned'] or [])
-        avail = [u for op, u in avail_before.items() if op not in earlier]
+        avail_all = [u for op, u in avail_before.items() if op not in earlier]
+        # "sufficiency is judged on outputs worth more than the fee to spend them"
+        avail = [u for u in avail_all if u.amount - sf > 0]
         effs = [u.amount - sf for u in avail]
-        if any(x <= 0 for x in effs):
-            run.probes['o7_skipped_dust'] += 1
-            return None
+        dust_present = len(avail) != len(avail_all)
+        if dust_present:
+            run.probes['o7_with_dust_present'] += 1
         total = sum(effs)
         s = sim.strategy
-        wrong = None
+        boundary = 'dust' if dust_present else 'none'
         if s in (None, 'standard', 'prefer_confirmed'):
-            wrong = total >= deficit
             need = deficit
         elif s == 'only_confirmed':
             total = sum(x for x, u in zip(effs, avail) if u.confirmed)
-            wrong = total >= deficit
             need = deficit
         elif s == 'sqlite':
-            need = deficit + margin
-            wrong = total >= need and deficit >= 10
-            if deficit <= total < need:
+            need = deficit
+            if deficit < 10:
+                run.probes['sqlite_tiny_deficit'] += 1
+            if deficit <= total < deficit + margin:
                 run.probes['sqlite_margin_refusal'] += 1
+            if any(u.amount >= 10 ** 12 for u in avail):
+                run.probes['sqlite_huge_output_available'] += 1
+            # which of the chooser's own rules explains the refusal (attribution only, not a relaxation)
+            if deficit < 10:
+                boundary = 'tiny_deficit'
+            elif total < deficit + margin:
+                boundary = 'within_change_fee'
+                pairs = [(u.amount, u.amount - sf) for u in avail]
+                if _sqlite_range_schedule(pairs, deficit) < deficit:
+                    boundary += '+range_cut'    # ... and even the bare deficit is out of the scanned ranges
+                elif dust_present and sum(u.amount - sf for u in avail_all) < deficit:
+                    boundary += '+dust'         # ... and the outputs below their spend fee pull the sum under it
+            elif _sqlite_range_schedule([(u.amount, u.amount - sf) for u in avail], deficit + margin) < deficit + margin:
+                boundary = 'range_cut'      # the squared range multiplier passed SQLITE_MAX_INTEGER
         elif s == 'closest_match':
             total = max(effs) if effs else 0
             need = deficit + margin
-            wrong = total >= need
         elif s == 'random_draw':
             need = deficit + margin
-            wrong = total >= need
         else:
             run.probes['o7_not_asserted_bnb'] += 1
             return None
+        wrong = total >= need
         run.probes['refusal_exact_checked'] += 1
         if abs(total - need) <= coc:
             run.probes['refusal_near_boundary'] += 1
         if wrong:
             return run.violation('C03.false_refusal', f'InsufficientFundsError for a deficit of {deficit} although the '
                                  f'outputs strategy {s} may spend are worth {total} >= {need} after their spend fees '
-                                 f'({len(avail)} available outputs)', clause='O7', strategy=str(s))
+                                 f'({len(avail)} outputs worth more than their spend fee {sf}, '
+                                 f'{len(avail_all) - len(avail)} below it, largest {max([u.amount for u in avail] or [0])})',
+                                 clause='O7', strategy=str(s), boundary=boundary)
         return None
 
     # ---- operations ----------------------------------------------------------------------------------
@@ -393,6 +552,8 @@ def execute(scenario, keep_trace=False):
             run.faults['unconfirmed_outputs_available'] += 1
         if any(u.amount <= sf for u in avail_before.values()):
             run.faults['dust_outputs_available'] += 1
+        if op.get('pre_unreserved') and b.pre:
+            run.faults['prechosen_inputs_unreserved'] += 1
         await sim.create(b)
         if b.state == 'failed':
             run.faults['build_failed_' + type(b.exc).__name__] += 1
@@ -414,7 +575,12 @@ def execute(scenario, keep_trace=False):
             if check_success(b, avail_before):
                 return
             sim.settle_model_after_create(b)
-            await then_phase(b, op.get('then', 'hold'), op.get('bheight', 0), f'then#{n}', op.get('gap', True))
+            how = op.get('then', 'hold')
+            if op.get('pre_unreserved') and b.pre:
+                run.probes['prechosen_unreserved_build'] += 1
+                if how == 'hold':
+                    how = 'release'     # the txo_spend pattern broadcasts or releases at once; nothing is held
+            await then_phase(b, how, op.get('bheight', 0), f'then#{n}', op.get('gap', True))
         else:
             run.ev('create', n, 'fail', type(b.exc).__name__, [c['amount'] for c in b.calls], len(b.touched))
             check_failure(b, avail_before)
